@@ -4,6 +4,7 @@
   (the ones `driver_c12` executes on Float), here at the real carrier.
 -/
 import Proofs.C12Lemmas
+import Proofs.C12Guillot
 
 namespace Taurex.C12
 open Taurex.NpInterp Taurex.Temperature
@@ -194,5 +195,48 @@ theorem guillot_rejects (q : GuillotParams ℝ) (g : ℝ) (pressure e21 e22 : Li
 
 example : ¬ ((1 / 100 : ℝ) = 0 ∨ (5 / 1000 : ℝ) = 0 ∨ (5 / 1000 : ℝ) = 0 ∨ (1500 : ℝ) < 0 ∨ (100 : ℝ) < 0) := by
   norm_num
+
+/-- **Guillot positivity**: for positive opacities, non-negative temperatures not both zero, `0 ≤ alpha ≤ 1`,
+    positive gravity and non-negative pressures, and ANY function `E2` with the exponential-integral bounds
+    `0 ≤ E2 x ≤ exp(-x)/(1+x)` on `x ≥ 0`, the profile is accepted and has one strictly positive temperature per layer. -/
+theorem guillot_positive (q : GuillotParams ℝ) (g : ℝ) (pressure : List ℝ) (E2 : ℝ → ℝ)
+    (hE : ∀ x, 0 ≤ x → 0 ≤ E2 x ∧ E2 x ≤ Real.exp (-x) / (1 + x))
+    (hg : 0 < g) (hp : ∀ p ∈ pressure, 0 ≤ p)
+    (hk : 0 < q.kappaIr) (h1 : 0 < q.kappaV1) (h2 : 0 < q.kappaV2)
+    (hirr : 0 ≤ q.tIrr) (hint : 0 ≤ q.tInt) (hpos : q.tIrr ≠ 0 ∨ q.tInt ≠ 0)
+    (ha0 : 0 ≤ q.alpha) (ha1 : q.alpha ≤ 1) :
+    ∃ prof, guillot q g pressure
+        (pressure.map fun p => E2 (q.kappaV1 / q.kappaIr * (q.kappaIr * p / g)))
+        (pressure.map fun p => E2 (q.kappaV2 / q.kappaIr * (q.kappaIr * p / g))) = .ok prof ∧
+      prof.length = pressure.length ∧ ∀ t ∈ prof, 0 < t := by
+  have hnr : q.rejected = false := by
+    rw [← Bool.not_eq_true, guillot_rejected_iff]
+    have hg1 : 0 < q.kappaV1 / q.kappaIr := div_pos h1 hk
+    have hg2 : 0 < q.kappaV2 / q.kappaIr := div_pos h2 hk
+    rintro (h | h | h | h | h) <;> linarith
+  unfold guillot
+  simp only [hnr, Bool.false_eq_true, if_false]
+  refine ⟨_, rfl, ?_, ?_⟩
+  · simp
+  · rw [C12G.zipWith_map_zip]
+    intro t ht
+    obtain ⟨p, hpm, rfl⟩ := List.mem_map.1 ht
+    have hp0 := hp p hpm
+    have htau : 0 ≤ q.kappaIr * p / g := div_nonneg (mul_nonneg hk.le hp0) hg.le
+    have hg1 : 0 < q.kappaV1 / q.kappaIr := div_pos h1 hk
+    have hg2 : 0 < q.kappaV2 / q.kappaIr := div_pos h2 hk
+    have b1 := hE (q.kappaV1 / q.kappaIr * (q.kappaIr * p / g)) (mul_nonneg hg1.le htau)
+    have b2 := hE (q.kappaV2 / q.kappaIr * (q.kappaIr * p / g)) (mul_nonneg hg2.le htau)
+    have hT4 := C12G.guillotT4_pos q (q.kappaIr * p / g) _ _ hk h1 h2 hpos ha0 ha1 htau b1.1 b1.2 b2.1 b2.2
+    simp only [sqrt_real]
+    exact Real.sqrt_pos.2 (Real.sqrt_pos.2 hT4)
+
+/-- non-vacuity: the documented default parameters (T_irr 1500, kappa_ir 0.01, kappa_v 0.005, alpha 0.5, T_int 100) -/
+example : (0:ℝ) < 1/100 ∧ (0:ℝ) < 5/1000 ∧ (0:ℝ) ≤ 1500 ∧ (0:ℝ) ≤ 100 ∧ ((1500:ℝ) ≠ 0 ∨ (100:ℝ) ≠ 0) ∧ (0:ℝ) ≤ 1/2 ∧ (1/2:ℝ) ≤ 1 := by
+  norm_num
+
+/-- non-vacuity of the `E2` hypothesis: the upper bound itself is an admissible `E2` -/
+example : ∀ x : ℝ, 0 ≤ x → 0 ≤ Real.exp (-x) / (1 + x) ∧ Real.exp (-x) / (1 + x) ≤ Real.exp (-x) / (1 + x) :=
+  fun x hx => ⟨div_nonneg (Real.exp_pos _).le (by linarith), le_refl _⟩
 
 end Taurex.C12
